@@ -27,7 +27,7 @@ pub mod proofs {
 
     /// register on a descriptor of the given kind at any fill level, a burst of
     /// 1..=2 deliveries, unregister, one more delivery.
-    fn wake_scenario(kind: FdKind) {
+    fn wake_scenario(kind: FdKind, max_burst: u8) {
         reg::init_globals();
         unsafe { libc::vshim::sync::ARCS::real_drop = true };
         let cap: u32 = 3;
@@ -39,10 +39,10 @@ pub mod proofs {
         let f = unsafe { K::fds[FD as usize] };
         assert!(f.closes == 0 && f.write_calls == 0, "C13: registration itself wrote to or closed the descriptor");
         let burst: u8 = kani::any();
-        kani::assume(burst >= 1 && burst <= 2);
+        kani::assume(burst >= 1 && burst <= max_burst);
         let mut d = 0;
         while d < 2 {
-            if d < burst {
+            if d < burst && d < max_burst {
                 let before = unsafe { K::fds[FD as usize] };
                 deliver(SA);
                 let after = unsafe { K::fds[FD as usize] };
@@ -67,27 +67,47 @@ pub mod proofs {
         assert!(g.writes_after_close == 0 && g.write_calls == f.write_calls, "C13: the descriptor was written to after it had been closed");
         assert!(g.closes == 1, "C13: the descriptor was closed twice");
         kani::cover!(fill == cap, "descriptor completely full");
-        kani::cover!(fill == 0 && burst == 2, "empty descriptor, burst of two");
+        kani::cover!(fill == 0 && burst == max_burst, "empty descriptor, longest burst");
     }
     #[kani::proof]
     #[kani::unwind(7)]
     pub fn c13_wake_pipe() {
-        wake_scenario(FdKind::Pipe);
+        wake_scenario(FdKind::Pipe, 2);
+    }
+    #[kani::proof]
+    #[kani::unwind(7)]
+    pub fn c13_q_wake_pipe() {
+        wake_scenario(FdKind::Pipe, 1);
     }
     #[kani::proof]
     #[kani::unwind(7)]
     pub fn c13_wake_stream() {
-        wake_scenario(FdKind::Stream);
+        wake_scenario(FdKind::Stream, 2);
+    }
+    #[kani::proof]
+    #[kani::unwind(7)]
+    pub fn c13_q_wake_stream() {
+        wake_scenario(FdKind::Stream, 1);
     }
     #[kani::proof]
     #[kani::unwind(7)]
     pub fn c13_wake_dgram() {
-        wake_scenario(FdKind::Dgram);
+        wake_scenario(FdKind::Dgram, 2);
+    }
+    #[kani::proof]
+    #[kani::unwind(7)]
+    pub fn c13_q_wake_dgram() {
+        wake_scenario(FdKind::Dgram, 1);
     }
     #[kani::proof]
     #[kani::unwind(7)]
     pub fn c13_wake_regular_file() {
-        wake_scenario(FdKind::Regular);
+        wake_scenario(FdKind::Regular, 2);
+    }
+    #[kani::proof]
+    #[kani::unwind(7)]
+    pub fn c13_q_wake_regular_file() {
+        wake_scenario(FdKind::Regular, 1);
     }
 
     /// rejected registrations: invalid descriptor, fcntl failure, kernel-rejected signal.
